@@ -9,6 +9,7 @@ import OttoVerif.C05.Obj
 import OttoVerif.C05.Ops2
 import OttoVerif.C06.Spec
 import OttoVerif.C05.StrKind
+import OttoVerif.C05.Unres
 namespace OttoVerif.C05.Driver
 open OttoVerif.F64 OttoVerif.Proto OttoVerif.C05
 
@@ -153,6 +154,7 @@ def prop? : List String → Option (Ops2.PropK × List String)
 partial def ex? : List String → Option (Ops2.Ex × List String)
   | "v" :: t :: r => (vl? t).map fun v => (.leaf (.value v), r)
   | "U" :: r => some (.leaf .unres, r)
+  | "Up" :: r => some (.leaf .unres, r)          -- `(undeclared)`: the grouping operator keeps the Reference (§11.1.6)
   | "g" :: tag :: t :: r => (vl? t).map fun v => (.leaf (.getter tag v), r)
   | "q" :: tag :: r => do let (e, r) ← ex? r; pure (.seq tag e, r)
   | "u" :: op :: r => do let op ← uop? op; let (e, r) ← ex? r; pure (.un op e, r)
@@ -319,8 +321,26 @@ def handleSku (o a : String) : String :=
     else "bad-op"
   | none => "bad-op"
 
+/-! ### `ur <form> <0|1>`: an operator outside the Ops2 language on an unresolvable identifier (1 = written `(N)`);
+    reply `<value | throw:ReferenceError>|<log>|<g+ | g->` (g+ = the global `N` exists afterwards) -/
+def uform? : String → Option Unres.Form
+  | "typeofN" => some .typeofN | "deleteN" => some .deleteN
+  | "preInc" => some .preInc | "preDec" => some .preDec | "postInc" => some .postInc | "postDec" => some .postDec
+  | "assignN" => some .assignN | "assignFrom" => some .assignFrom
+  | "dotN" => some .dotN | "idxN" => some .idxN | "idxKey" => some .idxKey
+  | "callN0" => some .callN0 | "callN1" => some .callN1 | "callArg" => some .callArg
+  | "newN0" => some .newN0 | "newN1" => some .newN1 | "newArg" => some .newArg
+  | "methN" => some .methN | "methArg" => some .methArg
+  | _ => none
+
+def outcomeTok (o : Unres.Outcome) : String :=
+  o.result ++ "|" ++ (if o.log.isEmpty then "-" else ",".intercalate o.log) ++ "|" ++ (if o.global then "g+" else "g-")
+
 def handle2 (ws : List String) : String :=
   match ws with
+  | ["ur", f, _] => match uform? f with
+    | some f => reply (outcomeTok (Unres.outcomeM f)) (outcomeTok (Unres.outcomeS f)) "-"
+    | none => "bad-op"
   | ["sk", o, a, b] => handleSk o a b
   | ["sku", o, a] => handleSku o a
   | ["knd", o, a, b] => handleKnd o a b
